@@ -33,7 +33,7 @@ func init() {
 				Reach: []string{"handler returned with a sub-request in flight"}, Functions: fns},
 			{Name: "teardown-with-sub-request-in-flight-all-interleavings", Pkg: ".", Files: append(append([]string{}, files...), "root/c10.go", "root/c18b.go"), Entry: "VerifTeardownStalled", Mode: "all", Race: true, ThoroughOnly: true,
 				Thorough: map[string]int{"budget_s": 3000},
-				Reach: []string{"handler returned with a sub-request in flight"}, Functions: fns},
+				Reach:    []string{"handler returned with a sub-request in flight"}, Functions: fns},
 			{Name: "two-subscriptions-canonical", Pkg: ".", Files: files, Entry: "VerifTeardown", Mode: "seq",
 				Quick:    map[string]int{"maxsteps": 3, "maxevents": 1, "ticks": 0, "pin_first": 0, "pin_second": 6, "kinds": 10, "mayreset": 1, "barepayload": 1},
 				Thorough: map[string]int{"maxsteps": 3, "maxevents": 1, "ticks": 0, "pin_first": 0, "pin_second": 6, "kinds": 10, "mayreset": 1, "barepayload": 1},
